@@ -158,9 +158,25 @@ Ltac free_pc := eapply inv_pc_free_gen; eauto; simp; try reflexivity; try tauto;
                 try (match goal with H : pc _ _ = _ |- _ => rewrite H end; simpl; try reflexivity; try tauto);
                 try (simpl; tauto).
 
-Ltac bf HI := dinv HI; constructor; simp; intros; eqb_cases; inj_all; simpl in *;
-  try (match goal with Hpc : pc _ ?i = _ |- _ => rewrite Hpc in * end); simpl in *;
-  eauto; try congruence; try tauto; try lia.
+Ltac fwd_actor HI :=
+  match goal with
+  | Hpc : pc ?s ?i = _ |- _ =>
+    pose proof (I5 _ HI i) as F5; pose proof (I5b _ HI i) as F5b; pose proof (I6 _ HI i) as F6;
+    pose proof (I7 _ HI i) as F7;
+    pose proof (fun j w => I10 _ HI i j w) as F10a; pose proof (fun j w => I10 _ HI j i w) as F10b;
+    rewrite Hpc in F5, F5b, F6, F7, F10a, F10b; simpl in F5, F5b, F6, F7, F10a, F10b
+  end.
+Ltac fwd_in HI :=
+  repeat match goal with
+         | H : cns ?s ?c = Some ?x, H0 : In (?w, ?j) (c_subs ?x) |- _ =>
+           lazymatch goal with
+           | _ : holdsP (pc s j) c w |- _ => fail
+           | _ => pose proof (I1 _ HI _ _ _ _ H H0)
+           end
+         end.
+Ltac fin := simpl in *; eauto; try congruence; try tauto; try lia.
+Ltac bf HI := try fwd_actor HI; dinv HI; constructor; simp; intros; eqb_cases; inj_all; simpl in *; fwd_in HI;
+  repeat (match goal with Hpc : pc _ ?i = _, H : context [pc _ ?i] |- _ => rewrite Hpc in H end); fin.
 
 Lemma inv_step : forall s a s' e, Inv s -> owner_free s -> step s a = Some (s', e) -> Inv s'.
 Proof.
